@@ -146,6 +146,11 @@ def split_const_bool_switches(rec):
                 if not x["stmts"] and x["term"]["k"] == "switch" and op_place(x["term"]["o"]) == [T]:
                     ok = True
                     break
+                # `let b = matches!(..); if b {..}`: the switch block first copies the named bool into a temporary
+                if len(x["stmts"]) == 1 and x["term"]["k"] == "switch" and x["stmts"][0]["rv"]["r"] == "use" and op_place(x["stmts"][0]["rv"]["o"]) == [T] \
+                        and len(x["stmts"][0]["lhs"]) == 1 and op_place(x["term"]["o"]) == x["stmts"][0]["lhs"]:
+                    ok = True
+                    break
                 if not x["stmts"] and x["term"]["k"] == "goto":
                     chain.append(cur)
                     cur = x["term"]["t"]
@@ -171,7 +176,7 @@ def split_const_bool_switches(rec):
                 nt["targets"] = [[0, dead]]
                 nt["otherwise"] = tgt
             nt["split_of"] = cur
-            blocks.append({"cleanup": False, "stmts": [], "term": nt})
+            blocks.append({"cleanup": False, "stmts": [dict(x) for x in blocks[cur]["stmts"]], "term": nt})
             nxt = len(blocks) - 1
             # private copies of the trivial blocks in between (they may be shared with the other arms)
             for x in reversed(chain):
